@@ -200,6 +200,79 @@ theorem pagewalk_bbs (names : List Name) (hok : NamesOK names) (S : SortedValid 
   obtain ⟨bp, h1, h2⟩ := bbsWalk_eq_walkFrom names hok n hn isDesc _ pages hw
   exact ⟨bp, h1, by rw [h2]; exact hfl⟩
 
+/-! #### the posting path keeps the cached total exact
+
+The `total` that bounds every search and listing above is the value cached in shared memory.
+`ptt.DoPostArticle` (NewPost) appends the record and then re-counts `.DIR` (`cache.SetBTotal`), so after every
+post the cached total equals the record count WHATEVER it was before — cold, exact, lagging behind because a
+record reached the file without the cache being told, or too large. -/
+
+/-- for every previous cached value: after a post the file is the old file plus the new record and the
+cached total is its record count. -/
+theorem post_resyncs_total (names : List Name) (cached : Int) (nm : Name) :
+    (postArticle names cached nm).2.1 = names ++ [nm] ∧
+      (postArticle names cached nm).2.2 = ((names ++ [nm]).length : Int) :=
+  postArticle_total names cached nm
+
+/-- a post whose name has a parsable time succeeds (SetBTotal reads the last name for the last-post time). -/
+theorem post_ok (names : List Name) (cached : Int) (nm : Name) (t : Int) (ht : C13.fnCreateTime nm = some t) :
+    (postArticle names cached nm).1 = .ok () := postArticle_ok names cached nm t ht
+
+/-- history "anything; post; look the newest article up by name": found at the last position, both
+directions, with the cached total the post left behind. -/
+theorem post_then_find_newest (names : List Name) (cached : Int) (nm : Name) (t : Int)
+    (ht : C13.fnCreateTime nm = some t) (S : SortedValid ((names ++ [nm]).map absEntry))
+    (U : UniqueKeys ((names ++ [nm]).map absEntry)) (isDesc : Bool) :
+    findNewest (postArticle names cached nm).2.1 (postArticle names cached nm).2.2 isDesc =
+      (.ok ((names ++ [nm]).length : Int), ((names ++ [nm]).length : Int)) := by
+  obtain ⟨h1, h2⟩ := postArticle_total names cached nm
+  rw [h1, h2]
+  have hS : SortedValid (((names ++ [nm]).map absEntry).take ((names ++ [nm]).map absEntry).length) := by
+    rw [List.take_length]; exact S
+  have hU : UniqueKeys (((names ++ [nm]).map absEntry).take ((names ++ [nm]).map absEntry).length) := by
+    rw [List.take_length]; exact U
+  exact findNewest_synced names nm t ht (sortedT_of (Nat.le_refl _) hS) (uniqueT_of (Nat.le_refl _) hU) isDesc
+
+/-- history "anything; post; page both ways": the `bbs` walk started with the cached total the post left
+behind visits every record of the new file exactly once, in order, and ends. -/
+theorem post_then_pagewalk (names : List Name) (cached : Int) (nm : Name) (hok : NamesOK (names ++ [nm]))
+    (S : SortedValid ((names ++ [nm]).map absEntry)) (U : UniqueKeys ((names ++ [nm]).map absEntry))
+    (n : Nat) (hn : 1 ≤ n) (isDesc : Bool)
+    (hla : if isDesc then LookaheadOKDesc ((names ++ [nm]).map absEntry) n
+           else LookaheadOKAsc ((names ++ [nm]).map absEntry) n) :
+    ∃ bp, bbsWalk (postArticle names cached nm).2.1 n isDesc ((names ++ [nm]).length + 1)
+        (postArticle names cached nm).2.2 [] = (bp, "end") ∧
+      (bp.map (·.items)).flatten =
+        (if isDesc then downFrom (names ++ [nm]).length (names ++ [nm]).length else upFrom 1 (names ++ [nm]).length) := by
+  obtain ⟨h1, h2⟩ := postArticle_total names cached nm
+  rw [h1, h2]
+  exact pagewalk_bbs (names ++ [nm]) hok S U n hn isDesc hla
+
+/-- the log boards a post is copied to (ALLPOST, …; repair 4ca0e38) are re-counted too: whatever the log
+board's cached total was before — in particular 0 right after `cache.ReloadBCache` — after the copy it is the
+record count of the log board's `.DIR`. -/
+theorem post_resyncs_logboard (logLen : Nat) (logCached : Int) :
+    (logCopy logLen logCached).1 = logLen + 1 ∧ (logCopy logLen logCached).2 = (((logCopy logLen logCached).1 : Nat) : Int) :=
+  ⟨rfl, rfl⟩
+
+/-- the defect that was repaired (`post:logboard-total-cold-bump`): bumping the zeroed total by one instead of
+re-counting leaves a log board with `N ≥ 1` earlier records at total 1 ≠ N + 1; since totals are only
+re-counted when they are 0 it never healed. -/
+theorem logboard_bump_witness (N : Nat) (hN : 1 ≤ N) (c : Int) :
+    reloadTotal c + 1 ≠ (logCopy N (reloadTotal c)).2 := by
+  unfold reloadTotal logCopy; simp; omega
+
+/-- the broken rule (seeded change C06-r5-2: bump the cached total by one instead of re-counting): a board with
+one counted record, one record appended behind the cache's back and the new post has 3 records but a cached
+total of 1 + 1 = 2; the newest article (time 30) is then not found ascending and another article is returned
+descending — contrary to the scan of the file. -/
+theorem bump_witness :
+    let idx : Index := [⟨some 10, [1]⟩, ⟨some 20, [2]⟩, ⟨some 30, [3]⟩]
+    pttFindStart idx (1 + 1) 30 (some [3]) false = .error .notFound ∧
+    pttFindStart idx (1 + 1) 30 (some [3]) true = .ok 2 ∧
+    Spec.find idx 3 30 (some [3]) false = .ok 3 ∧ Spec.find idx 3 30 (some [3]) true = .ok 3 := by
+  refine ⟨by rfl, by rfl, by rfl, by rfl⟩
+
 /-! #### non-vacuity and witnesses (kernel evaluation of the model) -/
 
 def exIdx : Index :=
